@@ -7,7 +7,7 @@ use poulpy_ckks::layouts::{
     CKKSCiphertext, CKKSMaintainOps, CKKSPlaintextConversion, CKKSPlaintextVecRnx, CKKSPlaintextVecZnx,
 };
 use poulpy_ckks::leveled::{
-    CKKSAddOps, CKKSConjugateOps, CKKSDecrypt, CKKSEncrypt, CKKSMulAddOps, CKKSMulOps, CKKSMulSubOps, CKKSNegOps, CKKSPow2Ops,
+    CKKSAddManyOps, CKKSAddOps, CKKSConjugateOps, CKKSDotProductOps, CKKSMulManyOps, CKKSDecrypt, CKKSEncrypt, CKKSMulAddOps, CKKSMulOps, CKKSMulSubOps, CKKSNegOps, CKKSPow2Ops,
     CKKSRescaleOps, CKKSRotateOps, CKKSSubOps,
 };
 use poulpy_ckks::{CKKSCompositionError, CKKSInfos, CKKSMeta};
@@ -80,6 +80,27 @@ pub enum Dst {
     Limbs(u8),
 }
 
+/// operand list of a composite operation: up to 4 registers (repetitions allowed)
+#[derive(Clone, Copy, Debug, PartialEq, Eq, Hash, Serialize, Deserialize)]
+pub struct List {
+    pub n: u8,
+    pub r: [u8; 4],
+}
+
+impl List {
+    pub fn of(v: &[u8]) -> Self {
+        let mut r = [0u8; 4];
+        r[..v.len()].copy_from_slice(v);
+        List { n: v.len() as u8, r }
+    }
+    pub fn regs(&self) -> &[u8] {
+        &self.r[..self.n as usize]
+    }
+}
+
+/// constant used as weight of term i of a dot product with constants
+pub const CST_ROT: [u8; 4] = [2, 0, 1, 2];
+
 #[derive(Clone, Copy, Debug, PartialEq, Eq, Hash, Serialize, Deserialize)]
 pub enum Action {
     Encrypt { dst: u8, start: u8, vec: u8 },
@@ -105,6 +126,11 @@ pub enum Action {
     Compact { dst: u8 },
     CompactCopy { dst: u8, a: u8 },
     Realloc { dst: u8, size: u8 },
+    AddMany { dst: u8, size: Dst, regs: List },
+    MulMany { dst: u8, size: Dst, regs: List },
+    DotCt { dst: u8, size: Dst, a: List, b: List },
+    /// weights: the vector `pt.idx` for every term (vector forms) or the constants CST_ROT[i] (constant forms)
+    DotPt { dst: u8, size: Dst, a: List, pt: PtSel },
 }
 
 impl Action {
@@ -142,6 +168,10 @@ impl Action {
             Compact { .. } => "compact_limbs".into(),
             CompactCopy { .. } => "compact_limbs_copy".into(),
             Realloc { .. } => "reallocate_limbs_checked".into(),
+            AddMany { .. } => "add_many".into(),
+            MulMany { .. } => "mul_many".into(),
+            DotCt { .. } => "dot_product_ct".into(),
+            DotPt { pt: p, .. } => format!("dot_product_pt_{}", pt(p)),
         }
     }
 }
@@ -298,6 +328,9 @@ pub fn sources(a: &Action) -> Vec<u8> {
         NegAssign { dst } | MulPow2Assign { dst, .. } | DivPow2Assign { dst, .. } | RotateAssign { dst, .. } | ConjAssign { dst }
         | RescaleAssign { dst, .. } | Compact { dst } | Realloc { dst, .. } => vec![dst],
         Align { a, b } => vec![a, b],
+        AddMany { regs, .. } | MulMany { regs, .. } => regs.regs().to_vec(),
+        DotCt { a, b, .. } => a.regs().iter().chain(b.regs()).copied().collect(),
+        DotPt { a, .. } => a.regs().to_vec(),
     }
 }
 
@@ -493,6 +526,148 @@ where
                 er(EK::Realloc)
             }
         }
+        // composites: judged as the equivalent sequence of binary operations (the API documentation of the
+        // composite traits states no algebra of its own)
+        AddMany { dst, size, regs } => {
+            let mk = dst_limbs(st, dst, size) * b2k;
+            let rs = regs.regs();
+            if rs.len() == 1 {
+                return unary(rs[0], mk, 0);
+            }
+            let (_, lb0, eff0, _) = m_of(&st.regs[rs[0] as usize]);
+            let (_, lb1, eff1, _) = m_of(&st.regs[rs[1] as usize]);
+            let off = eff0.min(eff1).saturating_sub(mk);
+            if off <= lb0.min(lb1) { ok(0) } else { er(EK::Capacity) }
+        }
+        MulMany { dst, size, regs } => {
+            let mk = dst_limbs(st, dst, size) * b2k;
+            let em = ErrModel::of(cx);
+            let sims: Vec<Sim> = regs.regs().iter().map(|&r| Sim::of(&st.regs[r as usize])).collect();
+            match sim_mul_many(&sims, mk, &em) {
+                Ok(_) => ok(0),
+                Err(k) => er(k),
+            }
+        }
+        DotCt { dst, size, a, b } => {
+            let mk = dst_limbs(st, dst, size) * b2k;
+            let mut errs = vec![];
+            for (&x, &y) in a.regs().iter().zip(b.regs()) {
+                let (ldx, lbx, _, _) = m_of(&st.regs[x as usize]);
+                let (ldy, lby, _, _) = m_of(&st.regs[y as usize]);
+                let p = mul_pred(lbx.min(lby), ldx.max(ldy), ldx.min(ldy), mk);
+                for e in p.errs {
+                    if !errs.contains(&e) {
+                        errs.push(e);
+                    }
+                }
+            }
+            Pred {
+                ok: errs.is_empty(),
+                errs,
+                meta: vec![],
+                res_lb: 0,
+            }
+        }
+        DotPt { dst, size, a, pt } => {
+            let mk = dst_limbs(st, dst, size) * b2k;
+            let (ldp, _) = cx.p.pt_precs[pt.prec as usize];
+            let mut errs = vec![];
+            for &x in a.regs() {
+                let (ldx, lbx, _, _) = m_of(&st.regs[x as usize]);
+                let p = mul_pred(lbx, ldp, ldx, mk);
+                for e in p.errs {
+                    if !errs.contains(&e) {
+                        errs.push(e);
+                    }
+                }
+            }
+            Pred {
+                ok: errs.is_empty(),
+                errs,
+                meta: vec![],
+                res_lb: 0,
+            }
+        }
+    }
+}
+
+/// metadata / magnitude / error of a value during the simulation of a composite as binary operations
+#[derive(Clone, Copy, Debug)]
+pub struct Sim {
+    pub ld: usize,
+    pub lb: usize,
+    /// storage bits of the buffer holding it
+    pub mk: usize,
+    pub mag: f64,
+    pub err: f64,
+}
+
+impl Sim {
+    pub fn of<F: Real>(r: &Reg<F>) -> Sim {
+        Sim {
+            ld: r.ct.log_delta(),
+            lb: r.ct.log_budget(),
+            mk: r.ct.max_k().as_usize(),
+            mag: r.mag(),
+            err: r.err,
+        }
+    }
+}
+
+fn sim_mul(a: Sim, b: Sim, mk: usize, em: &ErrModel) -> Result<Sim, EK> {
+    let p = mul_pred(a.lb.min(b.lb), a.ld.max(b.ld), a.ld.min(b.ld), mk);
+    if !p.ok {
+        return Err(p.errs[0]);
+    }
+    let (ea, eb) = (a.err + em.operand_floor(a.ld), b.err + em.operand_floor(b.ld));
+    let err = a.mag * eb + b.mag * ea + ea * eb + em.keyswitch(p.res_lb) + em.tensor(p.res_lb, a.mk.max(b.mk)) + em.trunc(p.res_lb, mk);
+    Ok(Sim {
+        ld: a.ld.min(b.ld),
+        lb: p.res_lb,
+        mk,
+        mag: a.mag * b.mag,
+        err,
+    })
+}
+
+fn ceil_log2(n: usize) -> usize {
+    if n <= 1 { 0 } else { (n - 1).ilog2() as usize + 1 }
+}
+
+/// `ckks_mul_many`: balanced product tree; the halves are computed into temporaries of
+/// min(effective_k) - ceil(log2(len)) * log_delta bits (rounded up to whole limbs)
+pub fn sim_mul_many(list: &[Sim], mk: usize, em: &ErrModel) -> Result<Sim, EK> {
+    if list.iter().any(|x| x.ld != list[0].ld) {
+        return Err(EK::Other);
+    }
+    let b2k = em.b2k as usize;
+    match list.len() {
+        1 => {
+            let x = list[0];
+            let off = (x.ld + x.lb).saturating_sub(mk);
+            if off > x.lb {
+                return Err(EK::Capacity);
+            }
+            Ok(Sim {
+                ld: x.ld,
+                lb: x.lb - off,
+                mk,
+                mag: x.mag,
+                err: x.err + em.trunc(x.lb - off, mk),
+            })
+        }
+        2 => sim_mul(list[0], list[1], mk, em),
+        n => {
+            let (left, right) = list.split_at(n / 2);
+            let ld = list[0].ld;
+            let tmp_mk = |h: &[Sim]| {
+                let k = h.iter().map(|x| x.ld + x.lb).min().unwrap().saturating_sub(ceil_log2(h.len()) * ld);
+                k.div_ceil(b2k) * b2k
+            };
+            let l = sim_mul_many(left, tmp_mk(left), em)?;
+            let r = sim_mul_many(right, tmp_mk(right), em)?;
+            sim_mul(l, r, mk, em)
+        }
     }
 }
 
@@ -561,7 +736,8 @@ pub fn act_dst(a: &Action) -> usize {
         | PtInto { dst, .. } | PtAssign { dst, .. } | NegInto { dst, .. } | NegAssign { dst } | MulPow2Into { dst, .. }
         | MulPow2Assign { dst, .. } | DivPow2Into { dst, .. } | DivPow2Assign { dst, .. } | RotateInto { dst, .. }
         | RotateAssign { dst, .. } | ConjInto { dst, .. } | ConjAssign { dst } | RescaleInto { dst, .. } | RescaleAssign { dst, .. }
-        | Compact { dst } | CompactCopy { dst, .. } | Realloc { dst, .. } => dst,
+        | Compact { dst } | CompactCopy { dst, .. } | Realloc { dst, .. } | AddMany { dst, .. } | MulMany { dst, .. }
+        | DotCt { dst, .. } | DotPt { dst, .. } => dst,
         Align { a, .. } => a,
     }) as usize
 }
@@ -771,6 +947,45 @@ where
             }
         }
         Realloc { dst, size } => one!(dst, cx.copy_ct(reg(dst)), |d| m.ckks_reallocate_limbs_checked(&mut d, size as usize)),
+        AddMany { dst, size, regs } => {
+            let refs: Vec<&CKKSCiphertext<Vec<u8>>> = regs.regs().iter().map(|&r| reg(r)).collect();
+            one!(dst, fresh(dst, size), |d| m.ckks_add_many(&mut d, &refs, s))
+        }
+        MulMany { dst, size, regs } => {
+            let refs: Vec<&CKKSCiphertext<Vec<u8>>> = regs.regs().iter().map(|&r| reg(r)).collect();
+            one!(dst, fresh(dst, size), |d| m.ckks_mul_many(&mut d, &refs, &cx.tsk, s))
+        }
+        DotCt { dst, size, a, b } => {
+            let ra: Vec<&CKKSCiphertext<Vec<u8>>> = a.regs().iter().map(|&r| reg(r)).collect();
+            let rb: Vec<&CKKSCiphertext<Vec<u8>>> = b.regs().iter().map(|&r| reg(r)).collect();
+            one!(dst, fresh(dst, size), |d| m.ckks_dot_product_ct(&mut d, &ra, &rb, &cx.tsk, s))
+        }
+        DotPt { dst, size, a, pt } => {
+            let ra: Vec<&CKKSCiphertext<Vec<u8>>> = a.regs().iter().map(|&r| reg(r)).collect();
+            let n = ra.len();
+            let prec = cx.pt_meta(pt.prec as usize);
+            match pt.form {
+                PtForm::VecZnx => {
+                    let w: Vec<&CKKSPlaintextVecZnx<Vec<u8>>> = (0..n).map(|_| &cx.vec_znx[pt.prec as usize][pt.idx as usize]).collect();
+                    one!(dst, fresh(dst, size), |d| m.ckks_dot_product_pt_vec_znx(&mut d, &ra, &w, s))
+                }
+                PtForm::VecRnx => {
+                    let w: Vec<&CKKSPlaintextVecRnx<F>> = (0..n).map(|_| &cx.vec_rnx[pt.idx as usize]).collect();
+                    one!(dst, fresh(dst, size), |d| m.ckks_dot_product_pt_vec_rnx(&mut d, &ra, &w, prec, s))
+                }
+                PtForm::CstZnx => {
+                    let cs: Vec<poulpy_ckks::layouts::CKKSPlaintextCstZnx> =
+                        (0..n).map(|i| cx.cst_znx_natural(CST_ROT[i] as usize, pt.prec as usize)).collect();
+                    let w: Vec<&poulpy_ckks::layouts::CKKSPlaintextCstZnx> = cs.iter().collect();
+                    one!(dst, fresh(dst, size), |d| m.ckks_dot_product_pt_const_znx(&mut d, &ra, &w, s))
+                }
+                PtForm::CstRnx => {
+                    let cs: Vec<poulpy_ckks::layouts::CKKSPlaintextCstRnx<F>> = (0..n).map(|i| cx.cst_rnx(CST_ROT[i] as usize)).collect();
+                    let w: Vec<&poulpy_ckks::layouts::CKKSPlaintextCstRnx<F>> = cs.iter().collect();
+                    one!(dst, fresh(dst, size), |d| m.ckks_dot_product_pt_const_rnx(&mut d, &ra, &w, prec, s))
+                }
+            }
+        }
     }
 }
 
@@ -994,6 +1209,98 @@ where
         RescaleInto { a, .. } | RescaleAssign { dst: a, .. } | Compact { dst: a } | CompactCopy { a, .. } | Realloc { dst: a, .. } => {
             let ra = r(a);
             one(ra.sh.clone(), ra.err + t)
+        }
+        AddMany { regs, .. } => {
+            let rs: Vec<&Reg<F>> = regs.regs().iter().map(|&i| r(i)).collect();
+            let mut sh: Option<Vec<Cplx<F>>> = rs[0].sh.clone();
+            let mut e = rs[0].err;
+            for x in &rs[1..] {
+                sh = match (sh, &x.sh) {
+                    (Some(a), Some(b)) => Some(zip(&a, b, cadd)),
+                    _ => None,
+                };
+                e += x.err;
+            }
+            // every partial sum is truncated to the destination at the budget it has at that point
+            if rs.len() >= 2 {
+                let eff = |x: &Reg<F>| x.ct.effective_k();
+                let off = eff(rs[0]).min(eff(rs[1])).saturating_sub(mkr);
+                let mut lb_cur = rs[0].ct.log_budget().min(rs[1].ct.log_budget()).saturating_sub(off);
+                e += em.trunc(lb_cur, mkr);
+                for x in &rs[2..] {
+                    lb_cur = lb_cur.min(x.ct.log_budget());
+                    e += em.trunc(lb_cur, mkr);
+                }
+            }
+            one(sh, e + 2.0 * t)
+        }
+        MulMany { regs, .. } => {
+            let rs: Vec<&Reg<F>> = regs.regs().iter().map(|&i| r(i)).collect();
+            let mut sh: Option<Vec<Cplx<F>>> = rs[0].sh.clone();
+            for x in &rs[1..] {
+                sh = match (sh, &x.sh) {
+                    (Some(a), Some(b)) => Some(zip(&a, b, cmul)),
+                    _ => None,
+                };
+            }
+            let sims: Vec<Sim> = rs.iter().map(|x| Sim::of(*x)).collect();
+            let e = match sim_mul_many(&sims, mkr, &em) {
+                Ok(sm) => sm.err + t,
+                Err(_) => f64::INFINITY,
+            };
+            one(sh, e)
+        }
+        DotCt { a, b, .. } => {
+            let n = a.regs().len() as f64;
+            let mut sh: Option<Vec<Cplx<F>>> = None;
+            let mut e = 0.0;
+            let mut lb0 = usize::MAX;
+            let (mut ldmax, mut ldmin, mut tmp_k) = (0usize, usize::MAX, 0usize);
+            for (i, (&x, &y)) in a.regs().iter().zip(b.regs()).enumerate() {
+                let (rx, ry) = (r(x), r(y));
+                let p = map2(rx, ry, &cmul);
+                sh = if i == 0 {
+                    p
+                } else {
+                    match (sh, p) {
+                        (Some(s0), Some(p)) => Some(zip(&s0, &p, cadd)),
+                        _ => None,
+                    }
+                };
+                e += cross(rx.mag(), eop(rx), ry.mag(), eop(ry));
+                lb0 = lb0.min(rx.ct.log_budget()).min(ry.ct.log_budget());
+                ldmax = ldmax.max(rx.ct.log_delta()).max(ry.ct.log_delta());
+                ldmin = ldmin.min(rx.ct.log_delta()).min(ry.ct.log_delta());
+                tmp_k = tmp_k.max(rx.ct.max_k().as_usize()).max(ry.ct.max_k().as_usize());
+            }
+            let lb0 = lb0.saturating_sub(ldmax).max(lbr);
+            e += n * (em.keyswitch(lb0) + em.tensor(lb0, tmp_k) + em.operand_floor(ldmin)) + t;
+            one(sh, e)
+        }
+        DotPt { a, pt, .. } => {
+            let n = a.regs().len();
+            let mut sh: Option<Vec<Cplx<F>>> = None;
+            let mut e = 0.0;
+            for (i, &x) in a.regs().iter().enumerate() {
+                let rx = r(x);
+                let sel = PtSel {
+                    idx: if matches!(pt.form, PtForm::VecZnx | PtForm::VecRnx) { pt.idx } else { CST_ROT[i] },
+                    ..pt
+                };
+                let (pv, pm, pq) = pt_val(&sel);
+                let p = rx.sh.as_ref().map(|v| zip(v, &pv, cmul));
+                sh = if i == 0 {
+                    p
+                } else {
+                    match (sh, p) {
+                        (Some(s0), Some(p)) => Some(zip(&s0, &p, cadd)),
+                        _ => None,
+                    }
+                };
+                e += cross(rx.mag(), eop(rx), pm, pq) + 3.0 * em.operand_floor(rx.ct.log_delta());
+            }
+            let _ = n;
+            one(sh, e + 2.0 * t)
         }
         Align { a, b } => {
             let mut out = vec![];
